@@ -8,6 +8,7 @@ The leaf arithmetic (`Gen.*`) is regenerated from /repo/expr on every run, so a
 change to a closure re-opens these obligations.
 -/
 import ZenoModel.Lemmas.ExprLaws
+import ZenoModel.Lemmas.Seq
 
 namespace Zeno.C05
 open Zeno
@@ -61,6 +62,24 @@ theorem acc_batches_commute {e : Ex} (hv : e.valid = true) (hp : e.noPtile = tru
 theorem count_merge_adds (a b : Rat) : aggMerge .count true a b = a + b := by
   simp [aggMerge, Gen.agg_COUNT_merge]
 
+/-- Restricting a stored series to a time range keeps exactly the periods whose end lies in
+    `(asOf', until']` — the bounds rounded down onto the series' own grid, `0` meaning "no
+    bound" — with their states unchanged; every other period reads as empty.  (That the
+    operand is not modified is the frame property checked at byte level by the `seq`
+    engine and proved for the heap model under C04.) -/
+theorem truncate_keeps_window (e : Ex) {res : Int} (h : 0 < res) (q : Seq) (asOf hi : Int) (t : Int) :
+    (Sq.truncate (some q) res asOf hi).at e res t =
+      if (roundUntilDown asOf res q.hi = 0 ∨ roundUntilDown asOf res q.hi < t) ∧
+         (roundUntilDown hi res q.hi = 0 ∨ t ≤ roundUntilDown hi res q.hi)
+      then Sq.at (some q) e res t else e.empty :=
+  sem_truncate e h q asOf hi t
+
+/-- … and the rounded bounds are the grid points just below the requested ones. -/
+theorem truncate_bounds_rounding {t res hi : Int} (h : 0 < res) (ht : t ≠ 0) (hh : hi ≠ 0) :
+    (hi - roundUntilDown t res hi) % res = 0 ∧ roundUntilDown t res hi ≤ t ∧
+      t - res < roundUntilDown t res hi :=
+  roundUntilDown_spec h ht hh
+
 /-! Non-vacuity: a concrete non-trivial expression and points meet the hypotheses, and the
     homomorphism computes the expected numbers. -/
 
@@ -72,5 +91,9 @@ example : exE.valid = true ∧ exE.noPtile = true := by decide
 example : exE.mrg (exE.acc default exPs₁) (exE.acc default exPs₂) =
     [.agg (some 9), .avg (some (2, 6))] := by decide +kernel
 example : exE.val default (exE.acc default (exPs₁ ++ exPs₂)) = some 3 := by decide +kernel
+
+def exSeq : Seq := ⟨1000, [[.agg (some 1)], [.agg (some 2)], [.agg (some 3)], [.agg (some 4)]]⟩
+example : Sq.truncate (some exSeq) 10 975 995 = some ⟨990, [[.agg (some 2)], [.agg (some 3)]]⟩ := by
+  decide +kernel
 
 end Zeno.C05
